@@ -1065,6 +1065,7 @@ class HttpPayloadParser:
                             set_exception(self.payload, exc)
                             raise exc
                         self._chunk_tail = chunk
+                        self._paused = False
                         return PayloadState.PAYLOAD_NEEDS_INPUT, b""
 
                 # read chunk and feed buffer
@@ -1103,6 +1104,7 @@ class HttpPayloadParser:
                         raise exc
                     else:
                         self._chunk_tail = chunk
+                        self._paused = False
                         return PayloadState.PAYLOAD_NEEDS_INPUT, b""
 
                 if self._chunk == ChunkState.PARSE_TRAILERS:
@@ -1115,6 +1117,7 @@ class HttpPayloadParser:
                             set_exception(self.payload, exc)
                             raise exc
                         self._chunk_tail = chunk
+                        self._paused = False
                         return PayloadState.PAYLOAD_NEEDS_INPUT, b""
 
                     line = chunk[:pos]
@@ -1158,6 +1161,10 @@ class HttpPayloadParser:
                 self._eof_pending = False
                 return PayloadState.PAYLOAD_COMPLETE, b""
 
+        # Out of input: a pause requested while feeding the payload has been
+        # served by the transport, it must not outlive this call, else the next
+        # read is parked here with nobody left to resume the parser.
+        self._paused = False
         return PayloadState.PAYLOAD_NEEDS_INPUT, b""
 
 
